@@ -47,4 +47,4 @@ if earlier:
     for t in earlier:
         print("  - " + t)
     print()
-print("Notes: directories named verifhooks and files named verif_export.go are build-tag-guarded test hooks: ignore and do not change them. Several binary fixtures under testdata are empty files in this sandbox, so a few tests (gobinary, rpm, vmlinuz, containerd, layerscanning/image TestFromTarball, binary/scanrunner TestRunScan) fail on the unchanged tree already. Do not kill processes you did not start (no broad pkill, no killall). Never use `git stash` (the stash is shared by all worktrees of the repository and other agents work in sibling worktrees): to go back to the unchanged tree use `git diff > file` and `git checkout -- .`, and `git apply file` to return. Demonstrations must only write inside directories they create with t.TempDir(). Keep scratch output files inside your worktree's seeded/ directory, not in /tmp.")
+print("Notes: directories named verifhooks, files named verif_*.go and the two verifEnter / verifExit lines in guidedremediation/internal/strategy/common/common.go are build-tag-guarded test hooks: ignore and do not change them. Several binary fixtures under testdata are empty files in this sandbox, so a few tests (gobinary, rpm, vmlinuz, containerd, layerscanning/image TestFromTarball, binary/scanrunner TestRunScan) fail on the unchanged tree already. Do not kill processes you did not start (no broad pkill, no killall). Never use `git stash` (the stash is shared by all worktrees of the repository and other agents work in sibling worktrees): to go back to the unchanged tree use `git diff > file` and `git checkout -- .`, and `git apply file` to return. Demonstrations must only write inside directories they create with t.TempDir(). Keep scratch output files inside your worktree's seeded/ directory, not in /tmp.")
